@@ -15,6 +15,7 @@ func main() {
 		}
 	}
 	core.Main("e1", map[string]core.PropEngine{
+		"C01": c01CliEngine{},
 		"C13": c13Engine{},
 		"C14": c14Engine{},
 	})
